@@ -249,7 +249,7 @@ func Template(t *rapid.T) Case {
 		}
 		return fmt.Sprintf(where, s)
 	}
-	switch rapid.SampledFrom([]string{"typedef-cycle", "uses-cycle", "identity-cycle", "include-cycle", "import-cycle", "cross-module-typedef-cycle", "cross-module-uses-cycle", "absent", "lone-submodule", "bad-augment", "bad-deviation", "duplicates", "numbers", "leafref-union-cycle", "choice-case-oddities", "fan-in", "header-mix", "long-chain", "enum-unions", "prefix-run"}).Draw(t, "template") {
+	switch rapid.SampledFrom([]string{"typedef-cycle", "uses-cycle", "identity-cycle", "include-cycle", "import-cycle", "cross-module-typedef-cycle", "cross-module-uses-cycle", "absent", "lone-submodule", "bad-augment", "bad-deviation", "duplicates", "numbers", "leafref-union-cycle", "choice-case-oddities", "fan-in", "header-mix", "long-chain", "enum-unions", "prefix-run", "error-budget"}).Draw(t, "template") {
 	case "typedef-cycle":
 		var b strings.Builder
 		for i := 0; i < n; i++ {
@@ -417,6 +417,26 @@ func Template(t *rapid.T) Case {
 		c.Files = append(c.Files, mod("m", fmt.Sprintf("leaf a { type decimal64 { fraction-digits %s; range %s; } } leaf b { type enumeration { enum x { value %s; } enum y; } } leaf c { type bits { bit x { position %s; } bit y; } } leaf-list d { type string { length %s; } min-elements %s; max-elements %s; } list e { key k; leaf k { type string; } min-elements %s; max-elements %s; } leaf f { type uint64 { range \"%s..%s | %s\"; } } leaf g { type int8 { range %s; } default %s; }", q, q, q, q, q, q, q, q, q, v, v, v, q, q)))
 	case "leafref-union-cycle":
 		c.Files = append(c.Files, mod("m", "leaf a { type leafref { path \"../b\"; } } leaf b { type leafref { path \"../a\"; } } leaf c { type leafref { path \"\"; } } leaf d { type leafref; } typedef u { type union; } leaf e { type u; } leaf f { type union { type union { type union { type f; } } } } leaf g { type identityref; } leaf h { type instance-identifier { require-instance maybe; } } leaf i { type enumeration; } leaf j { type bits; } leaf k { type decimal64; }"))
+	case "error-budget":
+		// a text with exactly n lexical faults (invalid escapes), n around the number of errors the reader is
+		// willing to collect and the size of its token queue: in one string, or one per statement, with sound
+		// text before and after; every count must come back as an error list
+		n := rapid.SampledFrom([]int{1, 2, 6, 7, 8, 8, 8, 9, 10, 15, 16, 16, 17, 24, 31, 32, 33, 64}).Draw(t, "lexical-faults")
+		esc := rapid.SampledFrom([]string{"\\q", "\\d", "\\ ", "\\'"}).Draw(t, "bad-escape")
+		var b strings.Builder
+		b.WriteString("leaf before { type string; } ")
+		if rapid.Bool().Draw(t, "faults-in-one-string") {
+			fmt.Fprintf(&b, "description \"%s\"; ", strings.Repeat(esc, n))
+		} else {
+			for i := 0; i < n; i++ {
+				fmt.Fprintf(&b, "leaf f%d { type string; description \"x%sy\"; } ", i, esc)
+			}
+		}
+		b.WriteString(rapid.SampledFrom([]string{"leaf after { type string; } ", "leaf after { type string; description \"open", "leaf after { type string; } /* open", "leaf after { type 'open; }", ""}).Draw(t, "after-the-faults"))
+		c.Files = append(c.Files, mod("m", b.String()))
+		if rapid.Bool().Draw(t, "second-file-sound") {
+			c.Files = append(c.Files, mod("n", "leaf l { type string; }"))
+		}
 	case "prefix-run":
 		// several imports under one prefix - of one another or of the module itself - and a name that starts
 		// with a run of that prefix (a:a:a:...:g): wherever a lookup strips a prefix and goes on, the work must
